@@ -4,6 +4,7 @@ import Cppcms.C01.HttpProofs3
 import Cppcms.C01.ScgiRoundtrip
 import Cppcms.C01.FcgiRoundtrip
 import Cppcms.C01.HttpRoundtrip
+import Cppcms.C01.StringMap
 /-!
 # C01 — property theorems
 
@@ -175,6 +176,40 @@ theorem http_folded_lines_roundtrip (cfg : HttpCfg) (ls : List FLine) (r r' : Ht
   cases httpProcess cfg { r' with ps := { r'.ps with state := Gen.ps_last_lf_exptected, rhdr := [] } } with
   | none => rfl
   | some h => rfl
+
+/-! ## by-name lookup in the request's variable table (`string_map`)
+
+The CGI variables are stored in an open-addressing hash table (`private/string_map.h`, the `#elif 1` variant)
+that starts with `Gen.smInitSize` slots, doubles when `Gen.smGrow total size`, inserts probing from
+`Gen.smInsertStart` by `Gen.smInsertStep` to the first free slot and looks up probing from `Gen.smGetStart` by
+`Gen.smGetStep` to the first free slot (all five regenerated from the source).  `SMap` is that table next to
+the abstract `Env` the rest of the model uses. -/
+
+/-- for every hash function and every sequence of `add`s (through any number of growths) `get` answers what
+the abstract environment answers: the value of the entry with that name that went into the current table
+first (`add` does not look for an existing name), nothing for a name that was never added.  Breaks when
+`get` does not probe the way `add` inserted (start, step or table size). -/
+theorem get_after_adds (h : Bytes → Nat) (adds : List (Bytes × Bytes)) (k : Bytes) :
+    (SMap.ofAdds h adds).get h k = (Env.empty.addAll adds).get? k :=
+  Cppcms.C01.get_after_adds h adds k
+
+/-- the same in terms of the `add`s alone: a name never added is not found; with pairwise different names
+(one request's CGI variables) every variable is found by name with the value it was added with -/
+theorem get_after_adds_plain (h : Bytes → Nat) (adds : List (Bytes × Bytes)) :
+    (∀ k, (∀ e ∈ adds, e.1 ≠ k) → (SMap.ofAdds h adds).get h k = none) ∧
+    ((∀ a ∈ adds, ∀ b ∈ adds, a.1 = b.1 → a = b) →
+      ∀ k v, (k, v) ∈ adds → (SMap.ofAdds h adds).get h k = some v) :=
+  ⟨fun k hk => get_absent h adds k hk, fun hd k v hkv => get_distinct h adds k v hd hkv⟩
+
+/-- the table the model carries is the abstract environment of the rest of the model -/
+theorem smap_env (h : Bytes → Nat) (adds : List (Bytes × Bytes)) :
+    (SMap.ofAdds h adds).env = Env.empty.addAll adds := (sinv_ofAdds h adds).2
+
+set_option maxRecDepth 100000 in
+/-- non-vacuity: 40 variables whose hashes all collide, two growths, every one found -/
+example : (List.range 40).all (fun i =>
+    (SMap.ofAdds (fun _ => 7) ((List.range 40).map (fun j => ([j.toUInt8], [j.toUInt8, 1])))).get (fun _ => 7) [i.toUInt8]
+      == some [i.toUInt8, 1]) = true := by decide
 
 /-- non-vacuity of `WFLine`: `A: x,` CRLF HTAB `y` CRLF SP `z` (a TAB fold and a SP fold) -/
 example : WFLine { head := [65, 58, 32, 120, 44], tail := [[9, 121], [32, 122]] } :=
